@@ -71,6 +71,7 @@ func nextHeightGuard(gcbh *types.Func) eng.NamedGuard {
 }
 
 func runC13(c *core.Ctx) {
+	checkCommitRepointsHeightIndex(c, "C13.height-index-follows-commit")
 	// the tip (block store) becomes durable before the state that belongs to it: otherwise a fault between the
 	// commits leaves the accumulator one leaf ahead of the tip and the next block-root check compares against it
 	checkCommitOrder(c, "C13.tip-durable-first")
@@ -89,7 +90,21 @@ func runC13(c *core.Ctx) {
 		}
 		calls := ir.CallsTo(fn, callee)
 		c.Floor(p[1]+" calls in "+p[0], len(calls), 1)
-		eng.Dominates(c, "C13.next-height≺store", fn, hg, ir.CallSinks(calls, p[1]), p[1], nil)
+		// the equality may be one test or the conjunction of the two one-sided tests (`h > n || h < n` refuses)
+		isNext := func(v ssa.Value) bool {
+			b, ok := ir.Strip(v).(*ssa.BinOp)
+			if !ok || b.Op != token.ADD {
+				return false
+			}
+			k, okk := ir.ConstInt(b.Y)
+			return okk && k == 1 && isCallTo(b.X, gcbh)
+		}
+		isHeight := func(v ssa.Value) bool { return isFieldNamed(v, "Height") }
+		if len(ir.PassEdges(fn, hg.G)) > 0 || len(calls) == 0 {
+			eng.Dominates(c, "C13.next-height≺store", fn, hg, ir.CallSinks(calls, p[1]), p[1], nil)
+		} else {
+			dominatesEq(c, "C13.next-height≺store", fn, hg.Name, isHeight, isNext, ir.CallSinks(calls, p[1]), p[1])
+		}
 		if p[0] != "ExecuteBlock" {
 			eng.Dominates(c, "C13.verifyHeader≺store", fn, eng.ErrNilOf("verifyHeader", vh), ir.CallSinks(calls, p[1]), p[1], nil)
 			// the header verified is the block's header
@@ -649,7 +664,17 @@ func runC14(c *core.Ctx) {
 				if b.Op != token.EQL && b.Op != token.NEQ {
 					return false, false
 				}
-				if (isFieldNamed(b.X, "NextBookkeeper") && isCallTo(b.Y, afb)) || (isFieldNamed(b.Y, "NextBookkeeper") && isCallTo(b.X, afb)) {
+				// the announcement compared is the one of the header ALREADY accepted (looked up by a call),
+				// never a field of the header under verification, which its producer chooses
+				ofAccepted := func(v ssa.Value) bool {
+					base, f, ok := fieldLoad(v)
+					if !ok || f != "NextBookkeeper" || rootedIn(base, "header", 8) {
+						return false
+					}
+					cl, _ := ir.CallOf(ir.Strip(base))
+					return cl != nil
+				}
+				if (ofAccepted(b.X) && isCallTo(b.Y, afb)) || (ofAccepted(b.Y) && isCallTo(b.X, afb)) {
 					return true, b.Op == token.EQL
 				}
 				return false, false
